@@ -16,7 +16,9 @@ RULE = ("(i) cross-process: valid corpus chunks and generated programs x 14 iden
         "other queries drawn with repetition (any method at any identifier, including out-of-range positions that "
         "raise ValueError and get_references), then the pool queries again; each must return the same serialised "
         "result as the first time. Non-trivial: the compared result has >=2 elements, or the history contains a "
-        "failing or get_references query between the two askings; distinct = hash(text, query[, history]).")
+        "failing or get_references query between the two askings; distinct = hash(text, query[, history]). (iii) a "
+        "Hypothesis RuleBasedStateMachine over one Script: rules ask / ask out of range / ask again / compare with a "
+        "Script asked nothing else, 8 steps (the quantifier's bound), model = first answer per query.")
 ASSUMPTIONS = ["results are compared as (name, type, module_path, line, column, full_name, description[, complete]) tuples",
                "each of the three reference processes has a private warm parser cache copied from the same snapshot",
                "vendored typeshed"]
@@ -245,14 +247,168 @@ def run_seq(ctx, case):
         ctx.judge(sig, detail, case)
 
 
+def changed_sig(method, first, again):
+    return "same-script-answer-changed:%s:%s" % (method, "unstable" if method == "get_references" else diff_kind(first, again))
+
+
+def history_sig(method, with_history, fresh):
+    kind = diff_kind(with_history, fresh)
+    if kind.startswith("fields=") and set(kind[7:].split("+")) <= {"line", "column", "module_path", "description"}:
+        kind = "location"          # same names, reported at another place (stub vs module)
+    elif kind not in ("order",) and not kind.startswith("fields="):
+        kind = "different-results"
+    if method == "get_references":
+        kind = "unstable"      # one family: get_references results depend on what was inferred before
+    return "answer-depends-on-query-history:%s:%s" % (method, kind)
+
+
+# ---------------------------------------------------------------------------------------------- stateful stream
+class HistoryRunner:
+    """One Script and the history of queries asked on it; the model is `first answer per query`.  Used by the Hypothesis
+    state machine below and, step by step without Hypothesis, by replay()."""
+
+    def __init__(self, ctx, src):
+        jedi = boot.jedi_boot()
+        self.ctx, self.src, self.jedi = ctx, src, jedi
+        self.text = src["text"]
+        self.pos = positions(self.text)
+        root = boot.fresh_dir("c16m")
+        self.path, self.project = None, None
+        if src["files"]:
+            tracer.write_project(root / "proj", src["files"])
+            self.path = str(root / "proj" / "main_mod.py")
+            self.project = jedi.Project(str(root / "proj"))
+        self.nlines = len(corpus.split_lines(self.text))
+        self.script = boot.fresh_script(self.text, path=self.path, project=self.project)
+        self.model = {}        # (method, line, col) -> first answer
+        self.steps = []        # the history as plain data: [rule, method, k]
+        self.failed_between = False
+
+    def case(self):
+        return {"kind": "machine", "src": self.src, "steps": list(self.steps)}
+
+    def _ask(self, script, method, line, col):
+        try:
+            return canon(method, {"ok": api.ser_result(method, getattr(script, method)(line, col))})
+        except Exception as e:
+            return ("exc", type(e).__name__)
+
+    def step(self, rule_, method, k):
+        """rule_ in {ask, oor, reask, fresh}; returns nothing, judges through ctx."""
+        if not self.pos or (self.ctx.out_of_time() and not self.ctx.replaying):
+            return
+        self.steps.append([rule_, method, k])
+        ctx = self.ctx
+        with core.time_limit(120):
+            if rule_ == "oor":
+                ans = self._ask(self.script, method, self.nlines + 1 + k % 3, k % 5)
+                self.failed_between = self.failed_between or ans[:1] == ("exc",)
+                ctx.cls("machine-rule:out-of-range")
+                return
+            if rule_ in ("reask", "fresh"):
+                if not self.model:
+                    return
+                key = sorted(self.model)[k % len(self.model)]
+                method, line, col = key
+            else:
+                line, col = self.pos[k % len(self.pos)]
+                key = (method, line, col)
+            ctx.count()
+            ctx.cls("machine-rule:" + rule_, "seq-method:" + method)
+            if rule_ == "fresh":
+                mine = self._ask(self.script, method, line, col)
+                alone = self._ask(self.jedi.Script(self.text, path=self.path, project=self.project), method, line, col)
+                if mine != alone and "exc" in (mine[:1] + alone[:1]):
+                    ctx.cls("not-judged:internal-exception(C01)")
+                elif mine != alone:
+                    ctx.judge(history_sig(method, mine, alone), "%s at %s in %s after %s: this Script %s ; fresh Script %s" % (
+                        method, (line, col), self.src["origin"], self.steps[:-1], str(mine)[:200], str(alone)[:200]), self.case())
+                return
+            ans = self._ask(self.script, method, line, col)
+            if key not in self.model:
+                self.model[key] = ans
+                return
+            first = self.model[key]
+            if (len(first) >= 2 and first[0] != "exc") or self.failed_between:
+                ctx.nontriv([self.text, key, self.steps])
+            if first != ans and "exc" in (first[:1] + ans[:1]):
+                ctx.cls("not-judged:internal-exception(C01)")
+            elif first != ans:
+                ctx.judge(changed_sig(method, first, ans), "%s at %s in %s: first %s, after %s: %s" % (
+                    method, (line, col), self.src["origin"], str(first)[:200], self.steps[:-1], str(ans)[:200]), self.case())
+
+
+def machine_class(ctx):
+    from hypothesis.stateful import RuleBasedStateMachine, rule, initialize, precondition
+
+    class QueryHistory(RuleBasedStateMachine):
+        """Histories of up to 8 queries on one Script (the property's quantifier): any method at any identifier, failing
+        (out-of-range) queries, repetitions; the model is the first answer to each query, checked on every repetition,
+        and a Script that was asked nothing else."""
+        last_violation = None
+
+        def __init__(self):
+            super().__init__()
+            self.h = None
+
+        @initialize(src=sources())
+        def open(self, src):
+            self.h = HistoryRunner(ctx, src)
+
+        def _do(self, *a):
+            try:
+                self.h.step(*a)
+            except core.Violation as v:
+                type(self).last_violation = v
+                raise
+            except core.Inconclusive:
+                ctx.inconclusive += 1
+
+        @rule(m=st.sampled_from(METHODS), k=st.integers(0, 10 ** 6))
+        def ask(self, m, k):
+            self._do("ask", m, k)
+
+        @rule(m=st.sampled_from(["infer", "goto", "get_references", "complete"]), k=st.integers(0, 10 ** 6))
+        def ask_common(self, m, k):
+            self._do("ask", m, k)
+
+        @rule(m=st.sampled_from(METHODS), k=st.integers(0, 10 ** 6))
+        def ask_out_of_range(self, m, k):
+            self._do("oor", m, k)
+
+        @precondition(lambda self: self.h is not None and self.h.model)
+        @rule(k=st.integers(0, 10 ** 6))
+        def ask_again(self, k):
+            self._do("reask", None, k)
+
+        @precondition(lambda self: self.h is not None and self.h.model)
+        @rule(k=st.integers(0, 10 ** 6))
+        def compare_with_fresh_script(self, k):
+            self._do("fresh", None, k)
+
+    return QueryHistory
+
+
+def run_machine_case(ctx, case):
+    h = HistoryRunner(ctx, case["src"])
+    for rule_, method, k in case["steps"]:
+        h.step(rule_, method, k)
+
+
 def run_case(ctx, case):
     if case["kind"] == "cross":
         return run_cross(ctx, case)
+    if case["kind"] == "machine":
+        return run_machine_case(ctx, case)
     return run_seq(ctx, case)
+
+
+EXAMPLES_MACHINE = {"quick": 12, "thorough": 400}
 
 
 def shard(ctx):
     core.drive(ctx, seq_cases(), lambda c: run_case(ctx, c), EXAMPLES_SEQ[ctx.tier], salt=5)
+    core.drive_machine(ctx, machine_class(ctx), EXAMPLES_MACHINE[ctx.tier], steps=8, salt=9)
     core.drive(ctx, cross_cases(), lambda c: run_case(ctx, c), EXAMPLES[ctx.tier])
 
 
